@@ -66,7 +66,6 @@ theorem keywords_lex :
 
 /-! Non-vacuity / worked examples of the byte-level model (kernel-evaluated). -/
 section
-private def b (s : String) : Bytes := s.toUTF8.toList
 /-- `..` then `a`;  `.e3` is a field;  `1.e3` one number;  `1.a` an invalid token ending at offset 3 -/
 example : (lexAll 9 (LState.init [46, 46, 97])).map (fun x => (x.1, x.2.2)) = [(tokRecurse, 2), (tokIdent, 3), (eof, 3)] := by decide +kernel
 example : (lexAll 9 (LState.init [46, 101, 51])).map (fun x => (x.1, x.2.2)) = [(tokIndex, 3), (eof, 3)] := by decide +kernel
